@@ -145,11 +145,13 @@ func init() {
 			c.OnlyClauses = []string{"missed", "wrong-content", "out-of-order", "foreign-id", "repeat"}
 			runC17(c)
 		}})
-	Register(&Check{Prop: "C15", Sub: "client-writes-framed", Weight: 1, Real: clientReal, Stub: clientStub,
+	Register(&Check{Prop: "C15", Sub: "client-writes-framed", Weight: 2, Real: clientReal, Stub: clientStub,
 		Req:  []string{"connection", "valid_accept", "call_succeeded"},
 		Rule: "the C18 scenario (concurrent application calls, subscriptions and Ready around handshakes, reconnects, slow writes, thread stalls) judged for one thing: the bytes the client wrote on every connection parse as a sequence of whole messages.",
 		Run: func(c *Ctx) {
 			c.OnlyClauses = []string{"stream-corrupt"}
+			c18ForceBurst = true
+			defer func() { c18ForceBurst = false }()
 			runC18(c)
 		}})
 	Register(&Check{Prop: "C15", Sub: "type-bijection", Once: true, Real: real,
